@@ -227,6 +227,32 @@ def main(c):
                     c.violation('spec:reference-decodes-different-values:%s:%s' % (name, shape(cs)), '%s n=%d p1=%d' % (name, cs['n'], cs['p1']), files={'encoded.bin': data, 'values.bin': cs['raw']})
                 elif pos != len(data) and cs['kind'] not in (1, 2):
                     c.violation('spec:encoded-size-differs-from-spec-decoder-consumption:%s' % name, '%s n=%d: carquet wrote %d bytes, the reference decoder consumed %d' % (name, cs['n'], len(data), pos), files={'encoded.bin': data})
+        # ---------- runs too long for one run header (thorough): the bytes are walked run by run, never expanded
+        if thorough:
+            huge = [(3, 6, 2**31 - 1), (3, 6, 2**31), (3, 6, 2**31 + 5), (8, 200, 2**32 + 3), (1, 1, 2**31 + 9)]
+            inp = os.path.join(base, 'huge.in'); outp = os.path.join(base, 'huge.out')
+            with open(inp, 'wb') as f:
+                for w, v, run in huge:
+                    f.write(rec(99, w, 0, 0, struct.pack('<Iq', v, run)))
+            vlib.run_shards(c, exe, [['enc', inp, outp]], cpu_limit=3000)
+            outs = parse_out(open(outp, 'rb').read()) if os.path.exists(outp) else []
+            for (w, v, run), (st, aux, data) in zip(huge, outs):
+                c.case('huge-run-%d-%d' % (w, run)); c.count('rle_runs_longer_than_one_header_can_hold')
+                if st != 0:
+                    c.count('encoder_refused_rle'); continue
+                try:
+                    runs, pos = E.rle_walk(data, w)
+                    total = sum(r[1] if r[0] == 'rle' else len(r[1]) for r in runs)
+                    flat_head = []
+                    for r in runs:
+                        flat_head += ([r[2]] * min(r[1], 20) if r[0] == 'rle' else list(r[1]))
+                        if len(flat_head) > 20:
+                            break
+                    in_run = sum(r[1] for r in runs if r[0] == 'rle' and r[2] == v) + sum(sum(1 for x in r[1] if x == v) for r in runs if r[0] == 'bp')
+                    if not (run + 2 <= total <= run + 9) or flat_head[0] != (5 & ((1 << w) - 1)) or in_run < run:
+                        c.violation('spec:run-longer-than-2^31-not-described-by-the-stream', 'width %d: 1 + %d + 1 values encoded with status OK into %d bytes; the runs of the stream add up to %d values (%d of them the run value)' % (w, run, len(data), total, in_run), files={'encoded.bin': data})
+                except (ValueError, IndexError) as e:
+                    c.violation('spec:reference-decoder-rejects-carquet-bytes:rle:huge-run', 'width %d run %d: %s' % (w, run, e), files={'encoded.bin': data})
         # ---------- direction 2: reference encodes -> carquet decodes
         shards = []
         encd = []
